@@ -252,10 +252,10 @@ class Evaluator:
                     raise Undecided("del target")
         elif isinstance(s, ast.For):
             it = self._expr(s.iter, env, mod, cls)
-            if not isinstance(it, (list, tuple, range, bytes, str, dict, IterStandIn)):
+            if not isinstance(it, (list, tuple, range, bytes, str, dict, IterStandIn)) and not hasattr(it, "__next__"):
                 raise Undecided("iteration over %s" % type(it).__name__)
             broke = False
-            for x in (it if isinstance(it, IterStandIn) else list(it)):
+            for x in (it if isinstance(it, IterStandIn) or hasattr(it, "__next__") else list(it)):
                 self._store(s.target, x, env, mod, cls)
                 try:
                     self._block(s.body, env, mod, cls)
@@ -330,6 +330,9 @@ class Evaluator:
         elif isinstance(s, (ast.Import, ast.Global, ast.Nonlocal)):
             return
         else:
+            if isinstance(s, ast.FunctionDef) and not s.decorator_list and not any(isinstance(x, (ast.Yield, ast.YieldFrom, ast.Nonlocal, ast.Global)) for x in ast.walk(s)):
+                env[s.name] = ("closure", s, env, mod, cls)   # reads the enclosing names when it is called, as Python does
+                return
             raise Undecided("statement %s (line %s)" % (type(s).__name__, getattr(s, "lineno", "?")))
 
     def _store(self, t, v, env, mod, cls):
@@ -634,6 +637,8 @@ class Evaluator:
                     return ("pymethod", o, e.attr)
             if isinstance(o, set) and e.attr == "pop" and len(o) == 1:
                 return ("pymethod", o, e.attr)  # the only element: no dependence on the set's internal order
+            if o is None:
+                raise Raised("AttributeError", e)  # None has none of the attributes the repository's code asks for
             raise Undecided("attribute %s of %s" % (e.attr, type(o).__name__))
         if isinstance(e, ast.Call):
             return self._call(e, env, mod, cls)
@@ -649,7 +654,24 @@ class Evaluator:
                     else:
                         out += str(x)
             return out
-        if isinstance(e, (ast.ListComp, ast.SetComp, ast.GeneratorExp, ast.DictComp)):
+        if isinstance(e, ast.GeneratorExp):
+            # a real (lazy) generator: elements are evaluated when something asks for them, as in Python -- next(g, default) stops at the first
+            # match and never evaluates what follows it
+            def lazy(gens, env2):
+                if not gens:
+                    yield self._expr(e.elt, env2, mod, cls)
+                    return
+                g = gens[0]
+                it = self._expr(g.iter, env2, mod, cls)
+                if not isinstance(it, (list, tuple, range, bytes, str, dict, set, IterStandIn)) and not hasattr(it, "__next__"):
+                    raise Undecided("generator over %s" % type(it).__name__)
+                for x in (it if isinstance(it, IterStandIn) or hasattr(it, "__next__") else list(it)):
+                    env3 = dict(env2)
+                    self._store(g.target, x, env3, mod, cls)
+                    if all(self._truth(self._expr(c, env3, mod, cls)) for c in g.ifs):
+                        yield from lazy(gens[1:], env3)
+            return lazy(list(e.generators), dict(env))
+        if isinstance(e, (ast.ListComp, ast.SetComp, ast.DictComp)):
             out = []
 
             def rec(gens, env2):
@@ -661,7 +683,7 @@ class Evaluator:
                     return
                 g = gens[0]
                 it = self._expr(g.iter, env2, mod, cls)
-                if not isinstance(it, (list, tuple, range, bytes, str, dict, set)):
+                if not isinstance(it, (list, tuple, range, bytes, str, dict, set, IterStandIn)) and not hasattr(it, "__next__"):
                     raise Undecided("comprehension over %s" % type(it).__name__)
                 for x in list(it):
                     env3 = dict(env2)
@@ -731,7 +753,7 @@ class Evaluator:
                 return IterStandIn(v)
             if nm == "next" and len(e.args) in (1, 2) and not e.keywords:
                 v = self._expr(e.args[0], env, mod, cls)
-                if not isinstance(v, IterStandIn):
+                if not isinstance(v, IterStandIn) and not hasattr(v, "__next__"):
                     raise Undecided("next() of %s" % type(v).__name__)
                 try:
                     return next(v)
@@ -797,6 +819,27 @@ class Evaluator:
         args = [self._expr(a, env, mod, cls) for a in e.args]
         kw = {k.arg: self._expr(k.value, env, mod, cls) for k in e.keywords}
         if isinstance(f, tuple) and f and f[0] == "noop":
+            return None
+        if isinstance(f, tuple) and f and f[0] == "closure":
+            _, fdef, outer, m3, c3 = f
+            ps3 = param_names(fdef)
+            if len(args) > len(ps3) or any(k_ not in ps3 for k_ in kw) or fdef.args.vararg or fdef.args.kwarg:
+                raise Undecided("call of local function %s" % fdef.name)
+            env3 = dict(outer)
+            dflt = dict(zip(ps3[len(ps3) - len(fdef.args.defaults):], fdef.args.defaults)) if fdef.args.defaults else {}
+            for p_, v_ in zip(ps3, args):
+                env3[p_] = v_
+            env3.update(kw)
+            for p_ in ps3:
+                if p_ not in env3 or (p_ in outer and p_ not in kw and ps3.index(p_) >= len(args)):
+                    if p_ in dflt:
+                        env3[p_] = self._expr(dflt[p_], outer, m3, c3)
+                    elif ps3.index(p_) >= len(args) and p_ not in kw:
+                        raise Undecided("missing argument %s of %s" % (p_, fdef.name))
+            try:
+                self._block(fdef.body, env3, m3, c3)
+            except _Return as r_:
+                return r_.v
             return None
         if isinstance(f, tuple) and f and f[0] == "pyfunc":
             if any(isinstance(a, (Obj, ClassRef)) for a in args) and f[1] not in self.externals.values():
